@@ -53,13 +53,49 @@ def seeded_table():
     return "\n".join(out)
 
 
+def refactor_table():
+    path = os.path.join(VERIF, "selftest", "refactorings_result.json")
+    if not os.path.exists(path):
+        return "(not run yet)"
+    rows = json.load(open(path))
+    out = ["| refactoring (sub-agent) | what it does | repository tests | all 11 checks |",
+           "|-------------------------|--------------|------------------|---------------|"]
+    for r in rows:
+        md = os.path.join(VERIF, "selftest", "refactorings", r["name"].replace(".diff", ".md"))
+        what = ""
+        if os.path.exists(md):
+            lines = [l.strip() for l in open(md).read().splitlines() if l.strip() and not l.startswith("#")]
+            what = " ".join(lines)[:260].replace("|", "/")
+        t = r.get("repo_tests", "")
+        m = re.search(r"(\d+) passed; (\d+) failed", t)
+        tests = ("pass" if m and m.group(2) == "0" else t[:30])
+        out.append("| `%s` | %s | %s | %s |" % (r["name"], what, tests,
+                   r.get("status", "") + ("" if not r.get("alarms") else " " + "; ".join(r["alarms"])[:200])))
+    return "\n".join(out)
+
+
+def refix_table():
+    path = os.path.join(VERIF, "selftest", "refix_result.json")
+    if not os.path.exists(path):
+        return "(not run yet)"
+    rows = json.load(open(path))
+    out = ["| fix reverted in the working tree | checks (exit code) | fixtures (exit code) |",
+           "|----------------------------------|--------------------|----------------------|"]
+    for r in rows:
+        out.append("| %s | %s | %s |" % (r["reverted_fix"],
+                   ", ".join("%s: %d" % kv for kv in r["checks"].items()),
+                   ", ".join("%s: %d" % kv for kv in r["fixtures"].items())))
+    return "\n".join(out)
+
+
 def main():
     p = os.path.join(VERIF, "DESIGN.md")
     s = open(p).read()
-    for tag, fn in (("MUTANTS", mutant_table), ("SEEDED", seeded_table)):
+    for tag, fn in (("MUTANTS", mutant_table), ("SEEDED", seeded_table), ("REFACTOR", refactor_table), ("REFIX", refix_table)):
         begin, end = "<!-- %s:BEGIN -->" % tag, "<!-- %s:END -->" % tag
         block = begin + "\n" + fn() + "\n" + end
-        ph = {"MUTANTS": "MUTANT_TABLE_PLACEHOLDER", "SEEDED": "SEEDED_TABLE_PLACEHOLDER"}[tag]
+        ph = {"MUTANTS": "MUTANT_TABLE_PLACEHOLDER", "SEEDED": "SEEDED_TABLE_PLACEHOLDER",
+              "REFACTOR": "REFACTOR_TABLE_PLACEHOLDER", "REFIX": "REFIX_TABLE_PLACEHOLDER"}[tag]
         if ph in s:
             s = s.replace(ph, block)
         else:
